@@ -4,6 +4,7 @@ import (
 	"context"
 	"fmt"
 	"hash/fnv"
+	"io"
 	"strings"
 	"time"
 
@@ -82,11 +83,22 @@ func SeriesOf(sc *scn.Scenario, data []scn.DSeries) []vstore.Series {
 
 // EngineOpts builds the options of the engine under test for a scenario.
 func EngineOpts(sc *scn.Scenario, optimizers string, disableFallback bool, reg prometheus.Registerer) engine.Opts {
-	return engine.Opts{
+	o := engine.Opts{
 		EngineOpts:        withReg(PromOpts(sc.Dur(sc.LB)), reg),
 		LogicalOptimizers: Optimizers(optimizers),
 		DisableFallback:   disableFallback,
 	}
+	// one scenario in four (by id): the engine explains every plan it builds to a debug writer
+	if idBits(sc, 11)%4 == 0 {
+		o.DebugWriter = io.Discard
+	}
+	return o
+}
+
+func idBits(sc *scn.Scenario, shift uint) uint32 {
+	h := fnv.New32a()
+	h.Write([]byte(sc.ID))
+	return h.Sum32() >> shift
 }
 
 func withReg(o promql.EngineOpts, reg prometheus.Registerer) promql.EngineOpts {
@@ -172,8 +184,16 @@ func Exec(ctx context.Context, e QueryEngine, st storage.Queryable, sc *scn.Scen
 	if isRef {
 		path = "ref"
 	}
+	// one scenario in four (by id): the rest of the query's API is used around Exec
+	noise := !isRef && idBits(sc, 13)%4 == 0
+	if noise {
+		_, _, _ = q.Statement(), q.Stats(), q.String()
+	}
 	res := q.Exec(ctx)
 	c := Canon(res)
+	if noise {
+		_, _, _ = q.Statement(), q.Stats(), q.String()
+	}
 	q.Close()
 	return Outcome{Path: path, Res: res, C: c, Wall: time.Since(t0)}
 }
